@@ -125,8 +125,11 @@ func (w *World) Ident(r, n int) []byte {
 	return out[:n]
 }
 
-// RankIdentity returns the 52-byte identity preimage of world rank r (1-based).
-func (w *World) RankIdentity(r int) []byte { return w.Ident(r, 52) }
+// RankIdentity returns the identity preimage of world rank r (1-based) in the C04 domain: the
+// identity "i<r>" of the shared trusted-dealer world (harness/gossip/world.go), so that tokens
+// whose construction depends on the other identities of the message (kind "swap") can be made by
+// gossip.World.ShareInMsg. Bytewise order is rank order ("i1:…" < "i2:…" < "i3:…").
+func (w *World) RankIdentity(r int) []byte { return w.Identity(w.Idents[r-1]).Bytes() }
 
 // TrueKey is the epoch secret key of the identity under the eon key (marshalled).
 func (w *World) TrueKey(id []byte) []byte {
